@@ -16,6 +16,7 @@ func nAsset(a string) node   { return node{a, a} }
 func nNum(n int) node        { return node{fmt.Sprint(n), fmt.Sprint(n)} }
 func nStr(raw string) node   { return node{"\"" + raw + "\"", "\"" + raw + "\""} }
 func nRatio(n, d int) node   { return node{fmt.Sprintf("%d/%d", n, d), fmt.Sprintf("%d/%d", n, d)} }
+func nRatioBig(n, d string) node { return node{n + "/" + d, n + "/" + d} }
 func nRatioSp(n, d int) node { return node{fmt.Sprintf("%d / %d", n, d), fmt.Sprintf("%d/%d", n, d)} }
 func nPercent(txt string) node {
 	body := strings.TrimSuffix(txt, "%")
@@ -172,6 +173,10 @@ func structurePrograms() []node {
 			stCall("set_tx_meta", nStr("\\\""), nStr("😀 astral 𝒳"))),
 		program(nil, stCall("set_tx_meta", nStr("n"), nNum(-5)), stCall("set_tx_meta", nStr("n"), nNum(0)), stCall("set_tx_meta", nStr("n"), nNum(123456789012345678)), stCall("set_tx_meta", nStr("p"), nRatio(0, 1)),
 			stCall("set_tx_meta", nStr("p"), nRatio(10, 100)), stCall("set_tx_meta", nStr("p"), nRatio(7, 7)), stCall("set_tx_meta", nStr("p"), nPercent("100%")), stCall("set_tx_meta", nStr("p"), nPercent("0%"))),
+		// terms at and beyond the machine-word boundaries; strings ending with a backslash
+		program(nil, stCall("set_tx_meta", nStr("p"), nRatioBig("9223372036854775807", "18446744073709551615")), stCall("set_tx_meta", nStr("p"), nRatioBig("9223372036854775808", "18446744073709551616")),
+			stCall("set_tx_meta", nStr("p"), nRatioBig("18446744073709551615", "340282366920938463463374607431768211456")), stCall("set_tx_meta", nStr("p"), nRatioBig("4294967296", "9223372036854775808"))),
+		program(nil, stCall("set_tx_meta", nStr("k"), nStr("C:\\dir\\"))),
 		program(nil, stCall("set_account_meta", nAcc("a:b-c_d"), nStr("k"), nAsset("EUR/2")), stCall("set_account_meta", nAcc("x"), nStr("k"), nMon(nAsset("COIN"), nNum(3))), stCall("set_account_meta", nAcc("x"), nStr("k"), nAcc("y"))),
 		// save
 		program([]decl{{"monetary", "m", nil}, {"account", "acc", nil}}, stSave(sentLit(m(10)), nAcc("a")), stSave(sentAll(usd), nVar("acc")), stSave(sentLit(nVar("m")), nAcc("b"))),
